@@ -116,6 +116,7 @@ type vend struct {
 	closeIn bool
 	scratch []byte // frame under construction (see Send)
 	midSend func(b []byte)
+	midClose func()
 }
 
 // validRecord: one complete JSON-RPC message: an object, or a non-empty array of objects.
@@ -218,6 +219,9 @@ func (e *vend) Close() error {
 	}
 	defer e.st.inClose.Add(-1)
 	runtime.Gosched()
+	if e.midClose != nil {
+		e.midClose() // a scheduling point inside Close when it is not serialised by the owner's mutex
+	}
 	e.out.close()
 	if e.closeIn {
 		e.in.close()
